@@ -45,7 +45,9 @@ SepOKAt(pos, n) == (pos = "path" /\ n.two) => n.sep \in {"-", "_", "."}
 \* path SHAPES: pairs (or triples) of operations whose paths / methods are structurally related - the
 \* root path, a static segment next to a path parameter, a path that is a prefix of another, the same
 \* path under two methods, a base path.  Each operation must be routed to its own handler.
-Shapes == {"root", "param_vs_static", "prefix", "methods", "basepath", "root_and_param"}
+\* tags_selected: generation restricted with --tags to one tag; an operation carries SEVERAL tags and is selected
+\* when any of them is the chosen one (first or not): every selected operation is generated and routed
+Shapes == {"root", "param_vs_static", "prefix", "methods", "basepath", "root_and_param", "tags_selected"}
 \* a definition / operation whose file name would end in a word the Go toolchain reads as an implicit build
 \* constraint (GOOS / GOARCH / test): the generated file must still be part of the package
 BuildSuffixes == {"linux", "windows", "amd64", "arm", "test", "ppc", "zos", "sparc", "s390", "riscv", "js", "wasm", "hurd", "nacl"}
